@@ -235,6 +235,7 @@ void Run::setup_world() {
   W.zone_weights = cfg.zone_w; W.zone_weights.resize(Z_NZ, 0);
   W.min_delay_us = cfg.min_delay; W.max_delay_us = cfg.max_delay < cfg.min_delay ? cfg.min_delay : cfg.max_delay;
   W.faults_enabled = cfg.faults != 0;
+  W.fd_reuse = cfg.knob("fd_reuse") != 0;
   W.stat["cfg.tfo"] = cfg.tfo;
   W.stat["cfg.default_chunking"] = (cfg.knob("default_chunking") && !cfg.knob("reference") && cfg.faults) ? 1 : 0;
   for (auto &s : cfg.servers) {
@@ -956,7 +957,7 @@ void Run::final_oracles() {
       violate("C10", "udp_max_queries_exceeded", "udp socket " + std::to_string(f.fd) + " carried " + std::to_string(f.n_send_ok) + " datagrams, limit " + std::to_string(cfg.udp_max_queries));
   }
   // socket-state callback stream: exactly one final (0,0) when something non-zero was announced
-  if (destroyed_all && cfg.mode == 0)
+  if (destroyed_all && cfg.mode == 0 && !W.fd_reuse)   // notification bookkeeping is by descriptor number
     for (auto &c : chans)
       for (auto &p : c.ever_announced) {
         int z = c.final_zero.count(p.first) ? c.final_zero[p.first] : 0;
